@@ -41,6 +41,8 @@ def cli_getset(case, profile):
                 o = os.path.join(d, "out.fa")
                 if os.path.exists(o):
                     os.remove(o)
+                if case.get("preexisting"):
+                    open(o, "w").write("X" * 4096)
                 rr = subprocess.run([exe, "getset", arc] + args + ["-o", o], capture_output=True, timeout=300)
                 return rr.returncode, (open(o, "rb").read() if os.path.exists(o) else b""), rr.stderr
             rr = subprocess.run([exe, "getset", arc] + args, capture_output=True, timeout=300)
